@@ -131,6 +131,21 @@ ADDENDA["C18"]["text"] += " The same graphs laid out in directories with hostile
 ADDENDA["C19"]["text"] += " A switch-case variable named like a field of another record whose computed field the case calls."
 ADDENDA.setdefault("C20", dict(text="", tech=""))
 ADDENDA["C20"]["text"] += " Schedules that start on an invalid package (repaired in an import) and schedules in which an import dangles for a while (directory moved away, deleted, half-typed path)."
+# ninth round
+ADDENDA["C01"]["text"] += " Dates / times / datetimes are handed to the Python writer in every representation it accepts."
+ADDENDA["C02"]["text"] += " Maps keyed by a type parameter (generic records and map aliases) instantiated with string, aliases of string and integers."
+ADDENDA["C06"]["text"] += " Every fixed pair is also judged by a running watcher after its first pass and three comment-only saves."
+ADDENDA["C07"]["text"] += " CopyTo() from a stub reader into the writer, failing at every implementation call."
+ADDENDA["C09"]["text"] += " The naming rule with 14 ill-formed names (incl. non-ASCII letters and digits) in 12 kinds of name position."
+ADDENDA["C10"]["text"] += " Types that contain themselves through constructs of imported packages."
+ADDENDA["C11"]["text"] += " Faults that exist in the import graph only (cycles, self imports, conflicts below an import, too deep a chain)."
+ADDENDA["C12"]["text"] += " One map-ordered group of diagnostics behind 0..19 diagnostics with a fixed order."
+ADDENDA["C13"]["text"] += " Explicitly tagged unions whose tags equal the derived tags of other unions."
+ADDENDA["C14"]["text"] += " Unions that share their non-null cases with and without null, executed by C++ and Python."
+ADDENDA["C16"]["text"] += " NDJSON input cut at every byte position (cuts that leave a complete shorter stream by the format are exempt)."
+ADDENDA["C17"]["text"] += " Streams several times longer than the reader buffers whose items are multi-byte varints, through every Python mode and C++."
+ADDENDA["C18"]["text"] += " Packages reached through linked ancestor directories and package directories that are links."
+ADDENDA["C19"]["text"] += " Integer literals around the limits of every width; switches over a plain type; same-record scope of switch variables."
 for _pid, _a in ADDENDA.items():
     CHECKS[_pid]["text"] += _a["text"]
     CHECKS[_pid]["tech"] += _a["tech"]
